@@ -18,7 +18,7 @@ from engine.common.core import Obligation, Cover, mval
 from engine.pyvc.values import *
 from engine.pyvc import models
 from engine.pyvc.loops import LoopSpec
-from engine.pyvc.harness import toolkit, raw, where, new_engine, run_paths, path_obligations, register_fn, note_engine, qualname
+from engine.pyvc.harness import toolkit, raw, where, new_engine, run_paths, path_obligations, register_fn, note_engine, qualname, exc_note, sect
 from contracts.py import msgs, trx as T
 from contracts.py.common import snapshot, attr, mk_sock
 from spec import tdma
@@ -64,11 +64,18 @@ def queue_pre():
 
 def build(run, prop=ID):
     E = new_engine()
-    build_queue_ops(run, prop, E)
-    build_recv(run, prop, E)
-    build_clck_tick(run, prop, E)
-    build_fate_lemma(run, prop)
-    build_interference(run, prop, E)
+    sect(run, build_queue_ops, run, prop, E)
+    sect(run, build_recv, run, prop, E)
+    sect(run, build_clck_tick, run, prop, E)
+    sect(run, build_fate_lemma, run, prop)
+    sect(run, build_interference, run, prop, E)
+    if run.tier == "thorough":
+        # bounded native stand-in next to the ownership proof: every single-step interleaving of an arrival / POWEROFF with one real tick
+        r = replay_schedules()
+        run.add(Obligation(prop, "transceiver.Transceiver.clck_tick", "ownership_native_single_step_interleavings", [], z3.BoolVal(not r["confirmed"]),
+                           kind="ownership", where="src/target/trx_toolkit/transceiver.py", tag={"what": "schedules"}, bounded=1,
+                           note="bounded: one socket-thread step injected at every line boundary of one tick, 3 queued bursts; result: %s" % (r.get("observed"),)))
+        run.bounded_notes.append("thorough: native schedule search (one arrival or POWEROFF at every line boundary of one clck_tick, real code, instrumented mutex)")
     note_engine(run, E)
     run.assume("queued messages carry frame numbers 0..2715647 (L1 sends valid frame numbers; parse_msg does not range-check FN)")
     run.assume("queued messages are distinct objects (each recv_data_msg creates a fresh TxMsg)")
@@ -115,7 +122,7 @@ def build_queue_ops(run, prop, E):
             run.add(*path_obligations(run, prop, f, p, ""))
             tag = {"what": name}
             if out[0] == "raise":
-                run.add(Obligation(prop, qualname(f), "never_raises", p.pc, z3.BoolVal(False), kind="noexc", case=out[1].cls.__name__, where=where(f), tag=tag))
+                run.add(Obligation(prop, qualname(f), "never_raises", p.pc, z3.BoolVal(False), kind="noexc", note=exc_note(out[1]), case=out[1].cls.__name__, where=where(f), tag=tag))
                 continue
             t = ctx["self"]
             q = t.attrs["_tx_queue"]
@@ -187,7 +194,7 @@ def build_recv(run, prop, E):
         run.add(*path_obligations(run, prop, f, p, ""))
         tag = {"what": "recv_tx_msg"}
         if out[0] == "raise":
-            run.add(Obligation(prop, qualname(f), "never_raises", p.pc, z3.BoolVal(False), kind="noexc", case=out[1].cls.__name__, where=where(f), tag=tag))
+            run.add(Obligation(prop, qualname(f), "never_raises", p.pc, z3.BoolVal(False), kind="noexc", note=exc_note(out[1]), case=out[1].cls.__name__, where=where(f), tag=tag))
             continue
         r = out[1]
         run.add(Obligation(prop, qualname(f), "reads_up_to_512_octets", p.pc, z3.BoolVal(p.ghost.get("recv_sizes") == [512]), kind="post", where=where(f), tag=tag))
@@ -229,7 +236,7 @@ def build_recv(run, prop, E):
         run.add(*path_obligations(run, prop, g, p, ""))
         tag = {"what": "recv_data_msg"}
         if out[0] == "raise":
-            run.add(Obligation(prop, qualname(g), "never_raises", p.pc, z3.BoolVal(False), kind="noexc", case=out[1].cls.__name__, where=where(g), tag=tag))
+            run.add(Obligation(prop, qualname(g), "never_raises", p.pc, z3.BoolVal(False), kind="noexc", note=exc_note(out[1]), case=out[1].cls.__name__, where=where(g), tag=tag))
             continue
         t = ctx["self"]
         q = t.attrs["_tx_queue"]
@@ -306,15 +313,32 @@ def build_clck_tick(run, prop, E):
         E.ghost["fw.n"] = E.ghost["fw.n"] + 1
         return None
 
+    def msgs_named(v, depth=0):
+        """the queued messages a log record refers to (through desc_hdr() or str()), whatever its text"""
+        out = []
+        if isinstance(v, FmtStr):
+            if v.fmt in ("desc_hdr", "obj") and v.args and isinstance(v.args[0], SRef) and issubclass(v.args[0].cls, toolkit("data_msg").Msg):
+                out.append(v.args[0])
+            elif depth < 4:
+                for a in v.args:
+                    out += msgs_named(a, depth + 1)
+        elif isinstance(v, (tuple, list)) and depth < 4:
+            for a in v:
+                out += msgs_named(a, depth + 1)
+        elif isinstance(v, SRef) and issubclass(v.cls, toolkit("data_msg").Msg):
+            out.append(v)
+        return out
+
     def warn_summary(E, func, args, kwargs):
-        msg = args[0]
-        if isinstance(msg, FmtStr) and "Stale TRXD message" in str(msg.fmt):
-            ref = [a.args[0] for a in msg.args if isinstance(a, FmtStr) and a.fmt == "desc_hdr"]
-            E.require("stale_warning_names_the_message_and_tick", z3.And(z3.BoolVal(len(ref) == 1), Z(msg.args[1]) == FN if isinstance(msg.args[1], (int, SInt)) else z3.BoolVal(False)), kind="post")
+        # a stale report = one log record at warning level or above that names the message (text and level above warning are free)
+        ref = msgs_named(list(args))
+        if ref:
+            E.require("stale_report_names_exactly_one_message", z3.BoolVal(len(ref) == 1), kind="post")
             E.ghost["st.arr"] = z3.Store(E.ghost["st.arr"], E.ghost["st.n"], ref[0].idt)
             E.ghost["st.n"] = E.ghost["st.n"] + 1
         return None
-    E.summaries = {"burst_fwd.BurstForwarder.forward_msg": fwd_summary, "logging.warning": warn_summary,
+    E.summaries = {"burst_fwd.BurstForwarder.forward_msg": fwd_summary, "logging.warning": warn_summary, "logging.warn": warn_summary,
+                   "logging.error": warn_summary, "logging.critical": warn_summary,
                    "data_msg.TxMsg.desc_hdr": lambda E, f_, a, k: FmtStr("desc_hdr", (a[0],))}
 
     def lists_of(fr):
@@ -382,7 +406,7 @@ def build_clck_tick(run, prop, E):
         if out[0] == "cut":
             continue
         if out[0] == "raise":
-            run.add(Obligation(prop, qualname(f), "never_raises", p.pc, z3.BoolVal(False), kind="noexc", case=out[1].cls.__name__, where=where(f), tag=tag))
+            run.add(Obligation(prop, qualname(f), "never_raises", p.pc, z3.BoolVal(False), kind="noexc", note=exc_note(out[1]), case=out[1].cls.__name__, where=where(f), tag=tag))
             continue
         t = ctx["self"]
         q = t.attrs["_tx_queue"]
@@ -530,15 +554,15 @@ def replay_tick(fn, fns, running):
         def forward_msg(self, src, m):
             sent.append(m)
     tr = toolkit("transceiver")
-    orig = tr.log.warning
-    tr.log.warning = lambda s_, *a: stale.append(s_)
+    orig = (tr.log.warning, tr.log.error, tr.log.critical)
+    tr.log.warning = tr.log.error = tr.log.critical = lambda s_, *a, **k: stale.append(s_)
     try:
         try:
             t.clck_tick(Fwd(), fn)
         except Exception as e:
             return {"confirmed": True, "observed": "raises %s: %s" % (type(e).__name__, e), "expected": "returns", "tick": fn, "queue": list(fns)}
     finally:
-        tr.log.warning = orig
+        tr.log.warning, tr.log.error, tr.log.critical = orig
     if not running:
         ok = not sent and not stale and t._tx_queue == msgs_
         return {"confirmed": not ok, "observed": [len(sent), len(stale), len(t._tx_queue)], "expected": "idle tick changes nothing"}
@@ -554,7 +578,133 @@ def replay_tick(fn, fns, running):
     return {"confirmed": bool(bad), "observed": bad or "partition matches spec", "expected": "due sent once, passed reported stale, future kept", "tick": fn, "queue": list(fns)}
 
 
+def replay_schedules():
+    """Native schedule search for ownership failures: ONE socket-thread step (an arrival through tx_queue_append, or POWEROFF through
+    power_event_handler(False)) is run at every line boundary of one real clck_tick where the real mutex would let it run (a context
+    switch simulated in one thread: a step that needs the held mutex blocks, i.e. it is not injected there).  Judged against the
+    statement only: accepted bursts go on the air exactly once in their frame, passed ones are reported stale, power-off discards
+    everything still queued, nothing vanishes."""
+    import sys
+    from contracts.py.native import native_trx
+    tr = toolkit("transceiver")
+    dm = toolkit("data_msg")
+
+    class WouldBlock(Exception):
+        pass
+
+    class ILock:
+        def __init__(self):
+            self.held = False
+
+        def acquire(self, *a, **k):
+            if self.held:
+                raise WouldBlock()
+            self.held = True
+            return True
+
+        def release(self):
+            self.held = False
+
+        def __enter__(self):
+            self.acquire()
+
+        def __exit__(self, *a):
+            self.release()
+    code = tr.Transceiver.clck_tick.__code__
+    fn = 100
+
+    def mk(a):
+        m = dm.TxMsg(fn=a % H, tn=0)
+        m.pwr, m.burst = 0, bytearray(148)
+        return m
+    orig_warn = (tr.log.warning, tr.log.error, tr.log.critical)
+    try:
+        for action in ("arrival", "poweroff"):
+            for inject_at in range(0, 400):
+                t = native_trx()
+                t.running = True
+                t._tx_queue_lock = ILock()
+                due, future, passed, new = mk(fn), mk(fn + 1), mk(fn - 1), mk(fn + 2)
+                for m in (due, future, passed):
+                    t._tx_queue.append(m)
+                sent, stale, st = [], [], {"n": 0, "done": False, "blocked": False, "tick": fn}
+                tr.log.warning = tr.log.error = tr.log.critical = lambda s_, *a, **k: stale.append(s_)
+
+                class Fwd:
+                    def forward_msg(self, src, m):
+                        sent.append((st["tick"], m))
+
+                def step():
+                    if action == "arrival":
+                        t.tx_queue_append(new)
+                    else:
+                        t.power_event_handler(False)
+
+                def local(frame, event, arg):
+                    if event == "line" and not st["done"]:
+                        if st["n"] == inject_at:
+                            st["done"] = True
+                            st["line"] = frame.f_lineno
+                            sys.settrace(None)
+                            try:
+                                step()
+                            except WouldBlock:
+                                st["blocked"] = True
+                            finally:
+                                sys.settrace(tracer)
+                        st["n"] += 1
+                    return local
+
+                def tracer(frame, event, arg):
+                    return local if frame.f_code is code else None
+                sys.settrace(tracer)
+                try:
+                    t.clck_tick(Fwd(), fn)
+                except Exception as e:
+                    sys.settrace(None)
+                    return {"confirmed": True, "observed": "tick raises %s: %s" % (type(e).__name__, e), "expected": "returns",
+                            "schedule": "%s at line %s of clck_tick" % (action, st.get("line"))}
+                finally:
+                    sys.settrace(None)
+                if not st["done"]:
+                    break                      # past the last line of the tick
+                if st["blocked"]:
+                    continue                   # the step waits for the mutex: same as running it at the next unlocked line
+                sched = "%s between the lines of clck_tick, just before transceiver.py:%d" % (action, st["line"])
+                if action == "poweroff":
+                    left = len(t._tx_queue)
+                    t.power_event_handler(True)
+                for k in (1, 2):
+                    st["tick"] = fn + k
+                    t.clck_tick(Fwd(), fn + k)
+                bad = []
+                cnt = lambda m: [tk for tk, x in sent if x is m]
+                if action == "arrival":
+                    for nme, m, at in (("due", due, fn), ("queued for the next frame", future, fn + 1), ("arriving during the tick", new, fn + 2)):
+                        if cnt(m) != [at]:
+                            bad.append("burst %s (fn=%d) transmitted at ticks %s, expected exactly once at tick %d" % (nme, m.fn, cnt(m), at))
+                    if cnt(passed) or len(stale) != 1:
+                        bad.append("passed burst: sent at %s, %d stale reports" % (cnt(passed), len(stale)))
+                else:
+                    if left:
+                        bad.append("%d burst(s) still queued after POWEROFF completed" % left)
+                    for nme, m in (("queued for the next frame", future), ("passed", passed)):
+                        if cnt(m):
+                            bad.append("burst %s (fn=%d) survived POWEROFF and was transmitted at tick %s after the next POWERON" % (nme, m.fn, cnt(m)))
+                    if [tk for tk in cnt(due) if tk != fn] or len(cnt(due)) > 1:
+                        bad.append("due burst transmitted at ticks %s" % cnt(due))
+                if bad:
+                    return {"confirmed": True, "observed": bad, "expected": "exactly-once in its frame / stale report / discarded by power-off", "schedule": sched}
+    finally:
+        tr.log.warning, tr.log.error, tr.log.critical = orig_warn
+        sys.settrace(None)
+    return {"confirmed": False, "observed": "every single-step interleaving of an arrival or POWEROFF with one tick behaves as the statement says",
+            "expected": "same"}
+
+
 def replay(payload):
+    if str(payload.get("clause", "")).startswith("ownership"):
+        return replay_schedules()
     from contracts.py.native import native_trx
     f = payload["inputs"]
     dm = toolkit("data_msg")
@@ -591,12 +741,12 @@ def replay(payload):
             def forward_msg(self, src, m):
                 sent.append(m)
         tr = toolkit("transceiver")
-        orig = tr.log.warning
-        tr.log.warning = lambda s, *a: stale.append(s)
+        orig = (tr.log.warning, tr.log.error, tr.log.critical)
+        tr.log.warning = tr.log.error = tr.log.critical = lambda s, *a, **k: stale.append(s)
         try:
             t.clck_tick(Fwd(), f["fn"])
         finally:
-            tr.log.warning = orig
+            tr.log.warning, tr.log.error, tr.log.critical = orig
         bad = []
         if not t.running:
             ok = not sent and not stale and t._tx_queue == msgs_
